@@ -695,8 +695,13 @@ int tls13_process_client_hello_exts(const uint8_t *exts, size_t extslen,
 			tls13_process_client_supported_versions(ext_data, ext_datalen, &server_exts, server_exts_len);
 			break;
 		case TLS_extension_key_share:
-			if (tls13_process_client_key_share(ext_data, ext_datalen, server_ecdhe_key, client_ecdhe_public, &server_exts, server_exts_len) != 1
+			// the answer (server key_share) is written by the call: make sure it fits before
+			if (tls13_server_key_share_ext_to_bytes(&server_ecdhe_key->public_key, NULL, &len) != 1
 				|| len > server_exts_maxlen) {
+				error_print();
+				return -1;
+			}
+			if (tls13_process_client_key_share(ext_data, ext_datalen, server_ecdhe_key, client_ecdhe_public, &server_exts, server_exts_len) != 1) {
 				error_print();
 				return -1;
 			}
